@@ -81,7 +81,7 @@ func checkC03(c *core.Ctx) {
 	sp := theory.AllSpellings()
 	variants := 1
 	if !c.Quick() {
-		variants = 16
+		variants = 17
 	}
 	per := len(sp) * (len(sp) + 1)
 	total := len(keys) * per
@@ -101,7 +101,7 @@ func checkC03(c *core.Ctx) {
 		variant := i / total
 		j := i % total
 		if c.Quick() && i >= total {
-			variant = 3 + rr.Intn(13)
+			variant = 3 + rr.Intn(14)
 			j = rr.Intn(total)
 		}
 		k := keys[j/per]
@@ -238,6 +238,30 @@ func checkC03(c *core.Ctx) {
 			ws := exotic[j%len(exotic)]
 			text = strings.NewReplacer("#", ws+"#", "b", ws+"b").Replace(text)
 		}
+		// the same chord was converted a moment ago in another key with the same tonic pitch (the enharmonic twin where
+		// there is one: C# before Db, F# before Gb, D#m before Ebm) or the same tonic letter: nothing of the earlier
+		// conversion may stick (16; round 10, C03-mutR10a: degrees memoised per root until the tonic's pitch changes)
+		if variant == 16 {
+			twin := ""
+			for _, o := range keys {
+				if o.String() != k.String() && o.Minor == k.Minor && ((o.Tonic.Pitch()-k.Tonic.Pitch())%12+12)%12 == 0 {
+					twin = o.String()
+				}
+			}
+			if twin == "" {
+				for _, o := range keys {
+					if o.String() != k.String() && ((o.Tonic.Pitch()-k.Tonic.Pitch())%12+12)%12 == 0 {
+						twin = o.String() // the parallel key
+					}
+				}
+			}
+			if twin == "" {
+				twin = keys[(j/per+3)%len(keys)].String()
+			}
+			text = text + " " + text + "{key=" + k.String() + "}"
+			args = []string{"text", "conv", "syllable", "--key", twin}
+			lead = 1
+		}
 		var r *runner.Result
 		if viaFile {
 			r = run(c, nil, append(append([]string{}, args...), c.Scratch.File("c03.txt", []byte(text)))...)
@@ -261,7 +285,7 @@ func checkC03(c *core.Ctx) {
 		}
 		if !r.OK() {
 			c.Count("refused", 1)
-			if rootIn && (bass == nil || bassIn) {
+			if rootIn && (bass == nil || bassIn) && variant != 16 { // 16: the first chord is written in another key, which may refuse it
 				c.Violate("sweep", i, sig+":refused", fmt.Sprintf("key %s: %q uses only notes of the key's own scale but is refused", k, text), obs(r))
 			}
 			return
